@@ -18,7 +18,7 @@ pub const FLOORS: &[&str] = &[
     "inspect", "addr:0", "addr:orig-1", "addr:orig", "addr:x7FFF", "addr:x8000", "addr:xFDFF",
     "addr:xFE00", "addr:xFFFF", "origin_high", "origin_low", "predefined_breakpoint_outside_user_space",
     "origin_zero", "origin_above_user_space", "wrong_case_label_rejected", "integer_beyond_32_bits_rejected",
-    "bare_number_like_label_is_a_number",
+    "bare_number_like_label_is_a_number", "pc_outside_user_space",
 ];
 
 const CMDS_PER_SESSION: u64 = 120;
@@ -35,7 +35,7 @@ pub fn run(cfg: &Cfg, col: &mut Collector) {
     }
 }
 
-fn program(rng: &mut Rng, orig: u16) -> (String, RefImage) {
+fn program(rng: &mut Rng, orig: u16, jump_out: Option<u16>) -> (String, RefImage) {
     if orig == 0xFDF0 {
         // image fills 0xFDF0..=0xFDFF exactly; the trailing `.break` marks 0xFE00, the first
         // address outside user space
@@ -65,6 +65,11 @@ fn program(rng: &mut Rng, orig: u16) -> (String, RefImage) {
     let names = *rng.pick(&[["first", "mid", "data", "last"], ["pc", "sp", "Main", "psr"], ["PC", "count", "Count", "lr"], ["first", "Pc", "data", "SP"],
         // labels whose bare name is a number to the command language (with an offset they are labels)
         ["b10", "o17", "data", "B1"]]);
+    if jump_out.is_some() {
+        // the program's first two instructions take the PC out of user space
+        items.push(Item::Stmt { label: None, stmt: Stmt::Ld(5, Target::Label("tgt_out".into())) });
+        items.push(Item::Stmt { label: None, stmt: Stmt::Jmp(5) });
+    }
     let n = 4 + rng.below(12) as usize;
     for k in 0..n {
         let label = match k {
@@ -81,6 +86,9 @@ fn program(rng: &mut Rng, orig: u16) -> (String, RefImage) {
             _ => Stmt::AndR(1, 2, 3),
         };
         items.push(Item::Stmt { label: label.map(|s| s.to_string()), stmt });
+    }
+    if let Some(t) = jump_out {
+        items.push(Item::Stmt { label: Some("tgt_out".into()), stmt: Stmt::Fill(t as i32) });
     }
     let p = Program { items };
     let img = match encode(&p) {
@@ -120,6 +128,9 @@ fn one_case(seed: u64, i: u64, n_sessions: u64, sweep_all: bool) -> CaseOut {
         4 => 0xFD00 + rng.below(0xE0) as u16,
         _ => gen_origin(&mut rng).clamp(1, 0xFD00) as u16,
     };
+    // every fifth session lets the program leave user space first (see below): from an ordinary origin
+    let want_out = i % 5 == 2;
+    let orig: u16 = if want_out { *rng.pick(&[0x3000u16, 0x0100, 0x8000, 0xC123, 0x7FF8, 0xFC00]) } else { orig };
     out.class(if orig >= 0x8000 { "origin_high" } else { "origin_low" });
     if orig == 0xFDF0 {
         out.class("predefined_breakpoint_outside_user_space");
@@ -130,13 +141,25 @@ fn one_case(seed: u64, i: u64, n_sessions: u64, sweep_all: bool) -> CaseOut {
     if orig == 0xFE10 {
         out.class("origin_above_user_space");
     }
-    let (text, img) = program(&mut rng, orig);
+    // one session in five starts by letting the program jump out of user space: locations relative to
+    // the PC are then relative to *that* PC (x0000, origin-1, xFE00, xFFFF), and mostly name nothing legal
+    let jump_out: Option<u16> = if want_out {
+        Some(*rng.pick(&[0x0000u16, orig - 1, 0xFE00, 0xFFFF, orig - 2, 0xFE01]))
+    } else {
+        None
+    };
+    let (text, img) = program(&mut rng, orig, jump_out);
     let labels: Vec<(String, u16)> = img.labels.iter().map(|(n, idx)| (n.clone(), orig + *idx as u16)).collect();
 
     let mut cmds: Vec<Cmd> = Vec::new();
     let mut classes: Vec<String> = Vec::new();
     // park the PC somewhere first (high / low), so that ^offsets are exercised from both ends
-    cmds.push(Cmd::Goto(orig + rng.below(img.words.len() as u64) as u16));
+    if jump_out.is_some() {
+        cmds.push(Cmd::StepInto(2));
+        classes.push("pc_outside_user_space".into());
+    } else {
+        cmds.push(Cmd::Goto(orig + rng.below(img.words.len() as u64) as u16));
+    }
     for k in 0..CMDS_PER_SESSION {
         // thorough: every address is a `move` target exactly once over the whole run
         let forced: Option<u16> = if sweep_all && k % 2 == 0 {
@@ -159,7 +182,7 @@ fn one_case(seed: u64, i: u64, n_sessions: u64, sweep_all: bool) -> CaseOut {
             classes.push(t.to_string());
         }
         // spelling of the location
-        let loc = match if forced.is_some() { rng.below(2) } else { rng.below(8) } {
+        let loc = match if forced.is_some() { rng.below(2) } else if jump_out.is_some() { 3 + rng.below(5) } else { rng.below(8) } {
             0 | 1 => {
                 classes.push("loc:abs".into());
                 Loc::Abs(addr)
